@@ -486,6 +486,28 @@ def g3z(rng):
     return dict(decl=decl, eins=[e], mapping=mapping, ext={K: rng.randint(1, 5), M: rng.randint(1, 7), N: rng.randint(1, 6)}, env={}, tags=["g3z", first, second])
 
 
+def g3w(rng):
+    """flatten() of three ranks of one tensor (the output, when it carries all three, is flattened and unflattened too)"""
+    M, N, O = rng.choice([("M", "N", "O"), ("I", "J", "H")])
+    # (an output carrying only some of the flattened ranks - Z[m, o] = A[m, n, o] * B[n] - makes Header.make_output raise KeyError
+    #  on the unchanged tree: no program is returned, nothing to check; recorded in DESIGN 10.4)
+    shape = rng.choice(["copy", "scale", "scale2"])
+    decl = {"A": [M, N, O]}
+    fa = ("t", "A", [V(M), V(N), V(O)])
+    if shape == "copy":
+        decl["Z"] = [M, N, O]
+        e = dict(out="Z", oidx=[V(M), V(N), V(O)], terms=[dict(kind="times", factors=[fa], sel=None)])
+    elif shape == "scale":
+        decl.update({"B": [N], "Z": [M, N, O]})
+        e = dict(out="Z", oidx=[V(M), V(N), V(O)], terms=[dict(kind="times", factors=[fa, ("t", "B", [V(N)])], sel=None)])
+    else:
+        decl.update({"B": [O, M], "Z": [M, N, O]})
+        e = dict(out="Z", oidx=[V(M), V(N), V(O)], terms=[dict(kind="times", factors=[("t", "B", [V(O), V(M)]), fa], sel=None)])
+    flat = M + N + O
+    return dict(decl=decl, eins=[e], mapping={"partitioning": {"Z": {"(%s, %s, %s)" % (M, N, O): ["flatten()"]}}, "loop-order": {"Z": [flat]}},
+                ext={M: rng.randint(1, 3), N: rng.randint(1, 3), O: rng.randint(1, 3)}, env={}, tags=["g3w", shape])
+
+
 def g3(rng, variant=None):
     """product Einsums Z[m,n] = A[k,m] * B[k,n] (and variants) with uniform_occupancy / flatten"""
     variant = variant or rng.choice(["occ", "occ", "occ_under_shape", "occ2", "flatten", "flatten_occ", "occ_out"])
